@@ -66,8 +66,19 @@ def _conjuncts(s):
         while m and _balanced(m.group(2)):          # parentheses around the whole body of a quantifier are redundant
             x = m.group(1) + m.group(2)
             m = re.match(r"^((?:forall|exists|sum)\([a-z]+:[a-z_]+\))\((.*)\)$", x)
-        res.append(x)
+        inner = _conjuncts(x) if not x.startswith(("forall(", "exists(", "sum(")) and _top_and(x) else [x]      # a parenthesised conjunction is its conjuncts
+        res += inner
     return sorted(res)
+
+
+def _top_and(s):
+    d = 0
+    for i, ch in enumerate(s):
+        d += ch in "(["
+        d -= ch in ")]"
+        if d == 0 and s.startswith("&&", i):
+            return True
+    return False
 
 
 def _balanced(s):
